@@ -700,4 +700,192 @@ theorem to_dataframe_sparse_witness :
     holdsFrame nanInput.t (frameDenseM nanInput.t) = true := by
   refine ⟨by decide, by decide, by decide, by decide, by decide⟩
 
+/-! ### the `summarize-table` report -/
+
+def rAxis (o : Bool) : Axis := if o then .obs else .samp
+
+/-- the per-ID counts a report is about, by ID of the summarised axis -/
+def rCounts (t : Table Rat) (q o : Bool) : List Rat :=
+  (t.ids (rAxis o)).map (fun id => ((vecOf? t (rAxis o) id).map (countOf q)).getD 0)
+
+theorem transpose_ok (t : Table Rat) (h : TableOK t) : TableOK t.transpose := by
+  refine ⟨⟨?_, ?_, ?_, ?_⟩, h.sampNodup, h.obsNodup⟩
+  · simp [Table.transpose, transposeGrid_length]
+  · have := rect_transposeGrid _ _ h.rect
+    rw [h.nrows] at this
+    exact this
+  · intro m hm; exact h.wf.2.2.2 m hm
+  · intro m hm; exact h.wf.2.2.1 m hm
+
+theorem rCounts_eq (t : Table Rat) (h : TableOK t) (q o : Bool) :
+    rCounts t q o = (iterData t (rAxis o)).map (countOf q) := by
+  have := perId_eq t h (rAxis o) (countOf q)
+  simp only [perId] at this
+  have h2 := congrArg (List.map (fun (x : Option Rat) => x.getD 0)) this
+  simp only [List.map_map, Function.comp_def, Option.getD_some] at h2
+  exact h2
+
+theorem countsOf_transpose (t : Table Rat) (h : TableOK t) (q : Bool) :
+    countsOf t.transpose q = (iterData t .obs).map (countOf q) := by
+  have hinv := transposeGrid_involutive t.samp.length t.rows h.rect
+  rw [h.nrows] at hinv
+  simp only [countsOf, iterData, Table.transpose]
+  show List.map (countOf q) (transposeGrid t.obs.length (transposeGrid t.samp.length t.rows)) = _
+  rw [hinv]
+
+def rInput (inp : Input) (o : Bool) : Input := if o then inp.transpose else inp
+
+theorem rInput_ok (inp : Input) (ht : TableOK inp.t) (o : Bool) : TableOK (rInput inp o).t := by
+  cases o
+  · exact ht
+  · exact transpose_ok inp.t ht
+
+theorem rInput_samp (inp : Input) (o : Bool) : (rInput inp o).t.samp = inp.t.ids (rAxis o) := by
+  cases o <;> rfl
+
+theorem rInput_counts (inp : Input) (ht : TableOK inp.t) (q o : Bool) :
+    countsOf (rInput inp o).t q = rCounts inp.t q o := by
+  rw [rCounts_eq inp.t ht]
+  cases o
+  · rfl
+  · exact countsOf_transpose inp.t ht q
+
+theorem rInput_rowOK (inp : Input) (hrow : inp.rowOK) (hcol : inp.colOK) (o : Bool) : (rInput inp o).rowOK := by
+  cases o
+  · exact hrow
+  · exact hcol
+
+theorem specDensity_transpose (t : Table Rat) (h : TableOK t) : specDensity t.transpose = specDensity t := by
+  unfold specDensity
+  simp only [Table.transpose, nnzCells_transpose _ _ h.rect, Nat.mul_comm t.obs.length]
+  by_cases h1 : t.samp.length = 0 <;> by_cases h2 : t.obs.length = 0 <;> simp [h1, h2]
+
+theorem rInput_density (inp : Input) (ht : TableOK inp.t) (hrow : inp.rowOK) (hcol : inp.colOK) (o : Bool) :
+    densityM (rInput inp o) = specDensity inp.t := by
+  rw [density_spec _ (rInput_rowOK inp hrow hcol o)]
+  cases o
+  · rfl
+  · exact specDensity_transpose inp.t ht
+
+theorem rCounts_sum (t : Table Rat) (h : TableOK t) (o : Bool) : (rCounts t false o).sum = total t.rows := by
+  rw [rCounts_eq t h]
+  have hc : countOf false = List.sum := by funext v; simp [countOf]
+  rw [hc]
+  cases o
+  · exact total_transpose _ _ h.rect
+  · rfl
+
+theorem printsAs3_refl (x : Rat) : printsAs3 x x = true := by
+  have h0 : (x - x).abs = 0 := by
+    have : x - x = 0 := by grind
+    rw [this]; rfl
+  simp only [printsAs3, h0, decide_eq_true_eq, tol3]
+  grind
+
+theorem mem_zip_map_self {α β : Type} (g : α → β) : ∀ (l : List α) (a : α) (b : β), (a, b) ∈ l.zip (l.map g) → b = g a
+  | [], _, _, h => by simp at h
+  | x :: l, a, b, h => by
+    simp only [List.map_cons, List.zip_cons_cons, List.mem_cons, Prod.mk.injEq] at h
+    rcases h with ⟨rfl, rfl⟩ | h
+    · rfl
+    · exact mem_zip_map_self g l a b h
+
+theorem pairwiseLe_of_pairwise : ∀ (l : List Rat), l.Pairwise (· ≤ ·) → pairwiseLe l = true
+  | [], _ => rfl
+  | [_], _ => rfl
+  | a :: b :: rest, h => by
+    rw [List.pairwise_cons] at h
+    simp only [pairwiseLe, Bool.and_eq_true, decide_eq_true_eq]
+    exact ⟨h.1 b (by simp), pairwiseLe_of_pairwise (b :: rest) h.2⟩
+
+theorem stR_eq (inp : Input) (ht : TableOK inp.t) (q o : Bool) :
+    statsM (rInput inp o).t q = match rCounts inp.t q o with
+      | [] => { min := 0, max := 0, median := 0, mean := 0, counts := (inp.t.ids (rAxis o)).zip (rCounts inp.t q o) }
+      | x :: xs => { min := xs.foldl min x, max := xs.foldl max x, median := median (rCounts inp.t q o),
+                     mean := mean (rCounts inp.t q o), counts := (inp.t.ids (rAxis o)).zip (rCounts inp.t q o) } := by
+  rw [statsM_eq _ (rInput_ok inp ht o), rInput_counts inp ht, rInput_samp]
+
+theorem rCounts_length (t : Table Rat) (q o : Bool) : (rCounts t q o).length = (t.ids (rAxis o)).length := by
+  simp [rCounts]
+
+theorem vecOf_some (t : Table Rat) (h : TableOK t) (ax : Axis) (id : Id) (hid : id ∈ t.ids ax) :
+    ∃ v, vecOf? t ax id = some v := by
+  have hv := vecs_by_id t h ax
+  have : vecOf? t ax id ∈ (t.ids ax).map (vecOf? t ax) := List.mem_map.mpr ⟨id, hid, rfl⟩
+  rw [hv] at this
+  obtain ⟨v, _, hv'⟩ := List.mem_map.mp this
+  exact ⟨v, hv'.symm⟩
+
+/-- the report, in each of the four mode combinations, shows the figures of the dense table: the
+axis sizes, the truncated total, the density, min/max/median/mean/std of the per-ID counts of the
+summarised axis, the metadata categories, and one detail line per ID of that axis with that ID's
+count, in ascending order of count -/
+theorem report_model_holds (inp : Input) (ht : TableOK inp.t) (hrow : inp.rowOK) (hcol : inp.colOK) (q o : Bool)
+    (std : Option Rat) (hstd : printsAsStd (reportM inp q o).variance std = true) :
+    holdsReport inp.t q o ((reportM inp q o).printed std) = true := by
+  have hst := stR_eq inp ht q o
+  have hden := rInput_density inp ht hrow hcol o
+  have hinp : (if o = true then inp.transpose else inp) = rInput inp o := rfl
+  have hax : (if o = true then Axis.obs else Axis.samp) = rAxis o := rfl
+  have hcounts : (statsM (rInput inp o).t q).counts = (inp.t.ids (rAxis o)).zip (rCounts inp.t q o) := by
+    rw [hst]; cases rCounts inp.t q o <;> rfl
+  have hcv : List.map (fun x => x.snd) ((inp.t.ids (rAxis o)).zip (rCounts inp.t q o)) = rCounts inp.t q o :=
+    List.map_snd_zip (by rw [rCounts_length]; exact Nat.le_refl _)
+  have hck : List.map (fun x => x.fst) ((inp.t.ids (rAxis o)).zip (rCounts inp.t q o)) = inp.t.ids (rAxis o) :=
+    List.map_fst_zip (by rw [rCounts_length]; exact Nat.le_refl _)
+  have hC : List.map (fun id => (Option.map (countOf q) (vecOf? inp.t (rAxis o) id)).getD 0) (inp.t.ids (rAxis o)) =
+      rCounts inp.t q o := rfl
+  have hperm := sortBy_perm (fun (e : Id × Rat) => e.2) ((inp.t.ids (rAxis o)).zip (rCounts inp.t q o))
+  have hsorted := sortBy_sorted (fun (e : Id × Rat) => e.2) ((inp.t.ids (rAxis o)).zip (rCounts inp.t q o))
+  have hmem : ∀ e ∈ sortBy (fun (e : Id × Rat) => e.2) ((inp.t.ids (rAxis o)).zip (rCounts inp.t q o)),
+      Option.map (countOf q) (vecOf? inp.t (rAxis o) e.1) = some e.2 := by
+    intro e he
+    have he' := hperm.mem_iff.mp he
+    have hid : e.1 ∈ inp.t.ids (rAxis o) := (List.of_mem_zip he').1
+    obtain ⟨v, hv⟩ := vecOf_some inp.t ht (rAxis o) e.1 hid
+    have := mem_zip_map_self _ _ e.1 e.2 he'
+    rw [this, hv]; rfl
+  simp only [reportM, hinp] at hstd ⊢
+  simp only [holdsReport, Report.printed, hax, hC, hcounts, hcv, sortKV_eq] at hstd ⊢
+  simp only [Bool.and_eq_true]
+  refine ⟨⟨⟨⟨⟨⟨⟨⟨⟨⟨⟨?_, ?_⟩, ?_⟩, ?_⟩, ?_⟩, ?_⟩, ?_⟩, ?_⟩, ?_⟩, ?_⟩, ?_⟩, ?_⟩
+  · cases o <;> simp [rInput, Input.transpose, Table.transpose]
+  · cases o <;> simp [rInput, Input.transpose, Table.transpose]
+  · cases q
+    · simp [rCounts_sum inp.t ht o, hden, printsAs3_refl]
+    · simp
+  · simp
+  · simp
+  · rw [hst]
+    cases hCC : rCounts inp.t q o with
+    | nil =>
+      rw [hCC] at hstd
+      simp only [printsAs3_refl, Bool.true_and]
+      cases std with
+      | none => rfl
+      | some s => simp [printsAsStd] at hstd
+    | cons x xs =>
+      rw [hCC] at hstd
+      simp only [List.length_cons, Nat.add_one_ne_zero, if_false] at hstd
+      simp [minL?, maxL?, printsAs3_refl, hstd]
+  · cases o <;> simp [rInput, Input.transpose, Table.transpose]
+  · cases o <;> simp [rInput, Input.transpose, Table.transpose]
+  · simp only [beq_iff_eq]
+    rw [hperm.length_eq, List.length_zip, rCounts_length]; simp
+  · simp only [List.all_eq_true, List.contains_eq_mem, decide_eq_true_eq]
+    intro id hid
+    rw [(hperm.map (fun x => x.fst)).mem_iff, hck]
+    exact hid
+  · simp only [List.all_eq_true]
+    intro e he
+    rw [hmem e he]
+    exact printsAs3_refl _
+  · apply pairwiseLe_of_pairwise
+    rw [List.pairwise_map]
+    refine hsorted.imp_of_mem ?_
+    intro a b ha hb hab
+    rw [hmem a ha, hmem b hb]
+    exact hab
+
+
 end Biom.C19
